@@ -1,1 +1,203 @@
-def main : IO Unit := IO.println "driver C12: not built yet"
+import VncModel.Basic.Proto
+import VncModel.Life.Model
+/-! Line-protocol driver for the connection life-cycle model (C12).  Same script as harness/c12.c,
+with two kinds of annotations added by vlib/props/c12.py from the harness' observations:
+`X=cI:r|w,...` (I/O failures that closed a connection during the op) and `R=cI:z..t..j..r..b..u..x..,...`
+(compression state / buffers observed on open connections after the op). -/
+open VncModel VncModel.Life VncModel.Proto
+
+structure DState where
+  v : Variant := Variant.current
+  w : World := {}
+
+def cid? (s : String) : Option Nat :=
+  if s.startsWith "c" then (s.drop 1).toString.toNat? else none
+
+def stName : St → String
+  | .ver => "ver" | .sec => "sec" | .init => "init" | .normal => "normal"
+
+def b01 (b : Bool) : String := if b then "1" else "0"
+
+def hookName : Hook → String
+  | .accept => "accept" | .hold => "hold" | .refuse => "refuse"
+
+def evName : Event → String
+  | .new i => s!"new c{i}"
+  | .hook i h => s!"hook c{i} {hookName h}"
+  | .ret i ok => s!"ret c{i} {if ok then "ptr" else "null"}"
+  | .close i => s!"close c{i}"
+  | .gone i => s!"gone c{i}"
+  | .kbd i => s!"kbd c{i}"
+
+def connTok (w : World) (i : Nat) (c : Conn) : String :=
+  if w.list.contains i && !w.cleaned then
+    let o := if c.sockOpen then "open" else "closed"
+    let r := if c.sockOpen then
+        s!"s{screenIndex w.screens c.scr}z{c.res.z}t{c.res.t}j{c.res.j}r{c.res.r}b{c.res.b}u{c.res.u}x{c.res.x}w{b01 c.wsctx}p{b01 c.wspath}f{b01 c.ftFd}e{c.exts}"
+      else "-"
+    s!"c{i}:L1:{o}:h{b01 c.onHold}:{stName c.st}:g{c.goneCalls}:k{c.closeCalls}:{r}"
+  else s!"c{i}:L0:-:-:-:g{c.goneCalls}:k{c.closeCalls}:-"
+
+def enumFrom {α : Type} (n : Nat) : List α → List (Nat × α)
+  | [] => []
+  | a :: as => (n, a) :: enumFrom (n + 1) as
+
+def strayShown (w : World) : Nat := w.stray + w.conns.countP (·.ftFd)
+
+def stateLine (w : World) : String :=
+  let evs := if w.log.isEmpty then "-" else " ".intercalate (w.log.map evName)
+  let cs := if w.conns.isEmpty then "-" else
+    " ".intercalate ((enumFrom 0 w.conns).map fun p => connTok w p.1 p.2)
+  let refs := if w.cleaned then "-" else ",".intercalate (w.screens.map fun s => toString s.refs)
+  s!"{evs} | {cs} | refs={refs} stray={strayShown w}"
+
+/-- "z1t0j0r0b2u0x0" -> Res -/
+def parseRes (s : String) : Option Res :=
+  let rec go (cs : List Char) (key : Option Char) (acc : Nat) (r : Res) : Option Res :=
+    let put (r : Res) (k : Char) (n : Nat) : Option Res :=
+      match k with
+      | 'z' => some { r with z := n } | 't' => some { r with t := n } | 'j' => some { r with j := n }
+      | 'r' => some { r with r := n } | 'b' => some { r with b := n } | 'u' => some { r with u := n }
+      | 'x' => some { r with x := n } | _ => none
+    match cs with
+    | [] => match key with
+      | some k => put r k acc
+      | none => some r
+    | c :: rest =>
+      if c.isDigit then go rest key (acc * 10 + (c.toNat - '0'.toNat)) r
+      else match key with
+        | some k => (put r k acc).bind fun r' => go rest (some c) 0 r'
+        | none => go rest (some c) 0 r
+  go s.toList none 0 {}
+
+def parseAnn (toks : List String) : Ann × ResAnn × List String :=
+  toks.foldl (fun (acc : Ann × ResAnn × List String) t =>
+    let (xs, rs, plain) := acc
+    if t.startsWith "X=" then
+      let items := ((t.drop 2).toString.splitOn ",").filterMap fun it =>
+        match it.splitOn ":" with
+        | [c, k] => (cid? c).map fun i => (i, if k == "w" then Fail.wr else Fail.rd)
+        | _ => none
+      (xs ++ items, rs, plain)
+    else if t.startsWith "R=" then
+      let items := ((t.drop 2).toString.splitOn ",").filterMap fun it =>
+        match it.splitOn ":" with
+        | [c, r] => match cid? c, parseRes r with
+          | some i, some rr => some (i, rr)
+          | _, _ => none
+        | _ => none
+      (xs, rs ++ items, plain)
+    else (xs, rs, plain ++ [t])) ([], [], [])
+
+def hook? (s : String) : Option Hook :=
+  if s == "hook=accept" then some .accept else if s == "hook=hold" then some .hold
+  else if s == "hook=refuse" then some .refuse else none
+
+def fin (s : DState) (w : World) : DState × List String :=
+  ({ s with w := { w with log := [] } }, [stateLine w])
+
+def exists? (s : DState) (i : Nat) : Bool := i < s.w.conns.length
+
+/-- may the message be sent now?  (the generators only send what the protocol allows next) -/
+def protoOk (w : World) (i : Nat) (m : Msg) : Bool :=
+  match w.conns[i]? with
+  | none => false
+  | some c =>
+    if !c.peerOpen then true else
+    -- half a message must stay half a message
+    if c.inbox.contains Msg.part then false else
+    -- state the server will be in when it gets to this message
+    let st := c.inbox.foldl (fun st m => match st, m with
+      | St.ver, Msg.ver => St.sec | St.sec, Msg.sec => St.init | St.init, Msg.init _ => St.normal
+      | st, _ => st) c.st
+    -- a connection that is closed (or will be by then) just drops the bytes
+    if !c.sockOpen then true else msgOk st m
+
+def defects (s : DState) : String :=
+  let w := s.w
+  let ds := (if w.nbLost > 0 then ["nonblock-fail-leak"] else []) ++
+    (if w.shutLeft > 0 || w.recLost > 0 then ["closed-unreaped-shutdown-leak"] else []) ++
+    (if w.wsLostGone > 0 then ["cleanup-wspath-leak"] else []) ++
+    (if w.wsLostHs > 0 then ["ws-multi-get-leak"] else []) ++
+    (if w.stray > 0 then ["ft-fd-leak"] else []) ++
+    (if w.extLost > 0 then ["extension-node-leak"] else [])
+  if ds.isEmpty then "-" else ",".intercalate ds
+
+def endLine (s : DState) : String :=
+  let w := s.w
+  let openleft := w.conns.countP (fun c => c.closeCalls == 0)
+  let leaks := if w.nbLost + w.recLost + w.wsLostHs + w.wsLostGone + w.extLost > 0 then 1 else 0
+  s!"end openleft={openleft} stray={strayShown w} leaks={leaks} defects={defects s}"
+
+def sendOp (s : DState) (c : String) (m : Msg) (xs : Ann) (rs : ResAnn) : DState × List String :=
+  match cid? c with
+  | some i =>
+    if !exists? s i then (s, ["bad-op"])
+    else if !protoOk s.w i m then (s, ["unmodelled"])
+    else fin s (step s.v s.w (.send i m xs rs))
+  | none => (s, ["bad-op"])
+
+def dstep (s : DState) (toks0 : List String) : DState × List String :=
+  let (xs, rs, toks) := parseAnn toks0
+  match toks with
+  | ["variant", a, b, c, d, e, f] =>
+    let t (x : String) := x == "1"
+    ({ s with v := ⟨t a, t b, t c, t d, t e, t f⟩ }, ["ok"])
+  | ["end"] => (s, [endLine s])
+  | _ =>
+  if s.w.cleaned then (s, ["bad-op"]) else
+  match toks with
+  | ["fault", _, _] => (s, ["ok"])
+  | "conn" :: c :: opts =>
+    match cid? c with
+    | some i =>
+      if i != s.w.conns.length then (s, ["bad-op"]) else
+      let h := (opts.filterMap hook?).head?.getD .accept
+      let ws := (opts.filterMap fun o => if o.startsWith "ws=" then (o.drop 3).toString.toNat? else none).head?.getD 0
+      let nb := opts.contains "nb=1"
+      let x := annFail xs i
+      fin s (step s.v s.w (.conn h ws nb x))
+    | none => (s, ["bad-op"])
+  | ["pump"] => fin s (step s.v s.w (.pump xs rs))
+  | ["ext"] => fin s (step s.v s.w .ext)
+  | ["shutdown"] => fin s (step s.v s.w .shutdown)
+  | ["cleanup"] => fin s (step s.v s.w .cleanup)
+  | ["ver", c] => sendOp s c .ver xs rs
+  | ["sec", c] => sendOp s c .sec xs rs
+  | ["init", c, sh] => sendOp s c (.init (sh != "0")) xs rs
+  | ["enc", c, _] => sendOp s c .enc xs rs
+  | ["req", c] => sendOp s c .req xs rs
+  | ["scale", c, k] => match k.toNat? with
+    | some k => sendOp s c (.scale k) xs rs
+    | none => (s, ["bad-op"])
+  | ["pf", c] => sendOp s c .pf xs rs
+  | ["key", c] => sendOp s c .key xs rs
+  | ["junk", c] => sendOp s c .junk xs rs
+  | ["partial", c] => sendOp s c .part xs rs
+  | ["ft", c] => sendOp s c .ft xs rs
+  | ["closepeer", c] | ["resetpeer", c] =>
+    match cid? c with
+    | some i => if exists? s i then fin s (step s.v s.w (.closePeer i xs rs)) else (s, ["bad-op"])
+    | none => (s, ["bad-op"])
+  | ["appclose", c] | ["start", c] | ["refuse", c] =>
+    match cid? c with
+    | some i =>
+      if !exists? s i || !appKnows s.w i then (s, ["bad-op"])
+      else fin s (step s.v s.w (match toks.head? with
+        | some "appclose" => .appClose i | some "start" => .start i | _ => .refuse i))
+    | none => (s, ["bad-op"])
+  | ["kbdclose", c] =>
+    match cid? c with
+    | some i => if exists? s i then fin s (step s.v s.w (.kbdClose i)) else (s, ["bad-op"])
+    | none => (s, ["bad-op"])
+  | ["gonekick", c, k] =>
+    match cid? c, cid? k with
+    | some i, some k => if exists? s i && exists? s k then fin s (step s.v s.w (.goneKick i k)) else (s, ["bad-op"])
+    | _, _ => (s, ["bad-op"])
+  | ["out", c] =>
+    match cid? c with
+    | some i => if exists? s i then (s, [s!"out c{i}"]) else (s, ["bad-op"])
+    | none => (s, ["bad-op"])
+  | _ => (s, ["bad-op"])
+
+def main : IO Unit := runDriver ({} : DState) dstep
